@@ -60,7 +60,8 @@ type twkbCase struct {
 	Close         bool
 	IDs           []int64
 	DistinctClose bool
-	Wide          bool   `json:"wide,omitempty"` // Idx addresses wideGeoms(CT) instead of a structural shape
+	Wide          bool   `json:"wide,omitempty"`  // Idx addresses wideGeoms(CT) instead of a structural shape
+	Delta         *int64 `json:"delta,omitempty"` // Idx addresses deltaGeoms(*Delta, PrecXY) instead of a structural shape
 	Hex           string `json:"hex,omitempty"`
 }
 
@@ -516,10 +517,76 @@ func c07Main(r *engine.Run) {
 		}
 	}
 	r.Bound("wide collections (33..500 direct members) × 4 ctypes × precisions {0,2} × {no options, all options} × {no IDs, full ID list}")
+	// varint boundaries: every scaled-integer delta in -300..300 and within ±2 of ±2^(7k-1), k = 1..6 (where
+	// the zigzag varint grows by a byte), as the first value (relative to 0), as a step up and as a step
+	// down, in X, Y, Z and M at once with different signs
+	ds := deltaValues(r.Thorough())
+	if r.Parallel(len(ds), func(i int) {
+		d := ds[i]
+		for _, p := range []int{0, 1} {
+			for gi, g := range deltaGeoms(d, p) {
+				for mask := 0; mask < 8; mask += 7 {
+					dd := d
+					c := twkbCase{Idx: gi, Shape: fmt.Sprintf("delta %d #%d", d, gi), CT: int(geom.DimXYZM), PrecXY: p, PrecZ: p, PrecM: p,
+						Size: mask&1 != 0, BBox: mask&2 != 0, Close: mask&4 != 0, Delta: &dd}
+					if pn := engine.SafeCall(func() { c07One(r, g, c) }); pn != nil {
+						r.Violation("C07/panic", "twkb", c, fmt.Sprint(pn))
+					}
+				}
+			}
+		}
+	}) {
+		r.Bound(fmt.Sprintf("varint boundaries: %d scaled deltas (all of -300..300, ±2 around ±2^6, 2^13, 2^20, 2^27, 2^34, 2^41) × {Point, LineString, Polygon, MultiPoint, collection} ZM × precision {0,1} × {no options, all options}", len(ds)))
+	}
 	r.Extra["cases_where_rounding_made_the_geometry_invalid"] = roundingCollapsed.Load()
 	if done {
 		r.Bound(fmt.Sprintf("S(%d,%d) = %d shapes × 4 ctypes × %d frames × precXY %v × precZ/M %v × 8 option subsets × ID lists", d, w, len(shapes), len(frames), precXY, precZM))
 	}
+}
+
+func deltaValues(thorough bool) []int64 {
+	var ds []int64
+	lim := int64(300)
+	if thorough {
+		lim = 20000 // past the two-to-three byte boundary at ±8192
+	}
+	for d := -lim; d <= lim; d++ {
+		ds = append(ds, d)
+	}
+	for _, k := range []uint{6, 13, 20, 27, 34, 41} {
+		for e := int64(-2); e <= 2; e++ {
+			ds = append(ds, (1<<k)+e, -(1<<k)+e)
+		}
+	}
+	return ds
+}
+
+// deltaGeoms: ZM geometries whose consecutive scaled ordinates differ by exactly d (X), -d (Y), d+1 (Z)
+// and 1-d (M), the first point being d away from 0; ordinates are k/10^p.
+func deltaGeoms(d int64, p int) []geom.Geometry {
+	sc := math.Pow10(p)
+	pt := func(kx, ky, kz, km int64) geom.Coordinates {
+		return geom.Coordinates{XY: geom.XY{X: float64(kx) / sc, Y: float64(ky) / sc}, Z: float64(kz) / sc, M: float64(km) / sc, Type: geom.DimXYZM}
+	}
+	p0 := pt(d, -d, d+1, 1-d)
+	p1 := pt(2*d, -2*d, 2*d+2, 2-2*d)
+	p2 := pt(d, -3*d, 3*d+3, 2-2*d)
+	seq := func(cs ...geom.Coordinates) geom.Sequence {
+		var fs []float64
+		for _, c := range cs {
+			fs = append(fs, c.X, c.Y, c.Z, c.M)
+		}
+		return geom.NewSequence(fs, geom.DimXYZM)
+	}
+	out := []geom.Geometry{geom.NewPoint(p0).AsGeometry()}
+	if d != 0 {
+		ls := geom.NewLineString(seq(p0, p1, p2))
+		out = append(out, ls.AsGeometry(),
+			geom.NewPolygon([]geom.LineString{geom.NewLineString(seq(p0, p1, p2, p0))}).AsGeometry(),
+			geom.NewMultiPoint([]geom.Point{geom.NewPoint(p0), geom.NewPoint(p1), geom.NewPoint(p2)}).AsGeometry(),
+			geom.NewGeometryCollection([]geom.Geometry{geom.NewPoint(p1).AsGeometry(), ls.AsGeometry()}).AsGeometry())
+	}
+	return out
 }
 
 func maxInt(a, b int) int {
@@ -535,7 +602,9 @@ func c07Replay(r *engine.Run, sub string, raw json.RawMessage) error {
 		return err
 	}
 	var g geom.Geometry
-	if c.Wide {
+	if c.Delta != nil {
+		g = deltaGeoms(*c.Delta, c.PrecXY)[c.Idx]
+	} else if c.Wide {
 		g = wideGeoms(geom.CoordinatesType(c.CT))[c.Idx]
 	} else {
 		shapes := universe.Shapes(c.D, c.W)
